@@ -30,6 +30,8 @@ CookieKinds == {"none", "c8", "valid", "stale", "badlen"}
 EcsKinds    == {"none", "v4_24", "v4_32", "v6_56", "fam0", "badfam"}
 Sizes       == {0, 512, 1232, 4096}
 ContentKinds == {"pos", "signed", "nx", "nodata", "ede", "big", "servfail", "upecs", "upcookie", "cname",
+                 "panic",            \* the handler behind the cache panics: the recovery middleware (AHEAD of edns) answers
+                                     \* SERVFAIL through Chain.CancelWithRcode, outside the edns response writer
                  "cnamesplit",       \* the alias alone, validated (AD=1); its target is a second, unvalidated exchange:
                                      \* the two are cached apart and every later hit is COMPOSED (AD = AND of the pieces = 0)
                  "hosts", "as112"}   \* answered ahead of the cache: hosts file entry, AS112 empty zone
@@ -160,7 +162,7 @@ R(o, rl, tail, store) == [o |-> o, spend |-> rl.spend, set |-> rl.set, tail |-> 
 Nothing == [spend |-> 0, set |-> FALSE]
 
 (* what a miss stores: failures and ECS-scoped material are not shared cache content here *)
-Stores(c) == IF c \in {"servfail", "upecs"} THEN "" ELSE c
+Stores(c) == IF c \in {"servfail", "upecs", "panic"} THEN "" ELSE c
 
 (* everything behind the negotiation is shared by the two passes: the cache
    ladder answers from bytes or from the Msg body, the body is the same *)
@@ -171,6 +173,7 @@ Behind(p, c, ng, rl, sentEcs) ==
     [] ld = "cancel"      -> R(NoReply, rl, FALSE, "")
     [] ld = "servfail-rd" -> R(Reply(p, ng, "servfail", "none", TRUE), rl, FALSE, "")
     [] ld = "hit"         -> R(Reply(p, ng, RcodeOf(Cached(p)), Cached(p), FALSE), rl, FALSE, "")
+    [] c = "panic"        -> R(RawCancel(p, "servfail", ~ng.noedns, FALSE), rl, TRUE, "")   \* OPT only if the CLIENT sent one
     [] OTHER              -> R(Reply(p, ng, RcodeOf(c), c, FALSE), rl, TRUE, Stores(c))
 
 (* the decoded pass, after the engine accepted the header *)
